@@ -78,6 +78,12 @@ def gen_case(r, idx):
     for j in range(1, len(preds)):
       if r.random() < 0.5:
         preds[j]['uses'].append([preds[r.randrange(j)]['name'], r.randint(1, 9)])
+    if r.random() < 0.35 and p != 'main':
+      # a functional predicate and a use of it nested inside its own call: Q(y) :- y == Step(Step(c))
+      fname = r.choice(['Step', 'Inc'])
+      if fname not in names:
+        preds.append({'name': fname, 'facts': [], 'uses': [], 'func': r.randint(1, 5)})
+        preds[0].setdefault('nest', []).append([fname, r.randint(1, 9)])
     files[p] = {'root': r.randrange(n_roots), 'preds': preds, 'imports': [], 'functor': None}
   # a functor inside a file: Made := Tmpl(Src: Other)
   for p in paths:
@@ -122,7 +128,8 @@ def gen_case(r, idx):
         if (alias or pn) in used_as:
           continue
         used_as.add(alias or pn)
-        owner['imports'].append({'file': t, 'pred': pn, 'alias': alias, 'used': True})
+        is_func = any(q['name'] == pn and 'func' in q for q in files[t]['preds'])
+        owner['imports'].append({'file': t, 'pred': pn, 'alias': alias, 'used': True, 'func': is_func})
 
   for k, p in enumerate(order):
     later = [q for q in order[k + 1:] if q != 'main']
@@ -144,7 +151,12 @@ def gen_case(r, idx):
       tgt = r.choice(owner['preds'][:2]) if owner is main else r.choice(owner['preds'])
       if owner.get('functor') and tgt['name'] in ('Src', 'Other', 'Tmpl'):
         tgt = owner['preds'][0]
-      tgt['uses'].append([im['alias'] or im['pred'], r.randint(1, 9)])
+      if 'func' in tgt:
+        tgt = owner['preds'][0]
+      if im.get('func'):
+        tgt.setdefault('nest', []).append([im['alias'] or im['pred'], r.randint(1, 9)])
+      else:
+        tgt['uses'].append([im['alias'] or im['pred'], r.randint(1, 9)])
   for p in order:
     wire(files[p])
   wire(main)
@@ -174,6 +186,8 @@ def gen_case(r, idx):
     nm = im['alias'] or im['pred']
     for q in o['preds']:
       q['uses'] = [u for u in q['uses'] if u[0] != nm]
+      if 'nest' in q:
+        q['nest'] = [u for u in q['nest'] if u[0] != nm]
     im['used'] = False
     defects.append('unused')
   elif d < 0.26 and with_imports:
@@ -203,8 +217,13 @@ def rules_text(owner, rename=None):
   rn = rename or (lambda x: x)
   out = []
   for q in owner['preds']:
+    if 'func' in q:
+      out.append('%s(x) = x + %d;' % (rn(q['name']), q['func']))
+      continue
     if q['facts']:
       out.append('%s(x) :- x in [%s];' % (rn(q['name']), ', '.join(str(c) for c in q['facts'])))
+    for u, k in q.get('nest', []):
+      out.append('%s(y) :- y == %s(%s(%d));' % (rn(q['name']), rn(u), rn(u), k))
     for u, k in q['uses']:
       out.append('%s(x + %d) :- %s(x);' % (rn(q['name']), k, rn(u)))
   fn = owner.get('functor')
@@ -264,7 +283,7 @@ def expectation(desc):
       if im['pred'] not in own_names(files[t]):
         bad.append('undefined')
       nm = im['alias'] or im['pred']
-      used = any(u[0] == nm for q in o['preds'] for u in q['uses']) or (
+      used = any(u[0] == nm for q in o['preds'] for u in q['uses'] + q.get('nest', [])) or (
           o.get('functor') and nm in (o['functor']['tmpl'], o['functor']['arg'], o['functor']['val']))
       if not used:
         bad.append('unused')
